@@ -1,6 +1,7 @@
 import ast
 import io
 import json
+import math
 import tokenize
 import sys
 from collections import namedtuple
@@ -135,7 +136,14 @@ class TreeConverter(ast.NodeVisitor):
     return ["Name", node.id]
 
   def visit_Constant(self, node):
-    return ["Const", node.value]
+    # Only constants that JSON (and the JS interpreter) can represent: number, string, bool, None.
+    # Ellipsis, bytes, complex numbers and infinite floats (e.g. 1e999) are not supported.
+    value = node.value
+    if not (value is None or isinstance(value, (bool, int, float, str))):
+      return self.generic_visit(node)
+    if isinstance(value, float) and not math.isfinite(value):
+      return self.generic_visit(node)
+    return ["Const", value]
 
   visit_NameConstant = visit_Constant
 
